@@ -12,6 +12,7 @@ C04.f consumers check constness before reading u.constant
 """
 import struct
 import facts
+import eai
 from facts import AnalysisBroken
 from eai import Interp, Obj, Ptr, Sym, SV, Terminal, Unsupported, StructVal, explore, UNINIT, HostTrap
 import cmodel
@@ -249,7 +250,9 @@ def rule_cast_arms(chk, prog, tier):
     fn = prog.require_func('eval')
     M = models(prog)
     ivals = [0, 1, 2, 127, 128, 255, 256, 32767, 32768, 65535, 65536, (1 << 31) - 1, 1 << 31, (1 << 32) - 1, 1 << 32,
-             (1 << 63) - 1, 1 << 63, (1 << 64) - 1, (1 << 64) - 128, (1 << 64) - 32768]
+             (1 << 63) - 1, 1 << 63, (1 << 64) - 1, (1 << 64) - 128, (1 << 64) - 32768,
+             # halfway cases for float that a detour through double rounds the other way (the conversion rounds once, 6.3.1.4p2)
+             (1 << 60) + (1 << 36) + 1, (1 << 63) + (1 << 39) + 1, (1 << 64) - (1 << 60) - (1 << 36) - 1, (1 << 60) + (1 << 36) - 1 + (1 << 37)]
     fvals = [0.0, -0.0, 0.5, -0.5, 1.0, -1.0, 255.5, 256.0, 0.1, 2147483648.0, -2147483649.0, 4294967296.0, 1e19, -1e19, 16777217.0, 9.3e18]
     ints = list(TYPES.keys())
     flts = {'float': 4, 'double': 8}
@@ -299,8 +302,7 @@ def rule_cast_arms(chk, prog, tier):
             else:
                 want = ('u', cwrap(v, size, sg) & ((1 << 64) - 1))
         else:
-            x = float(v)
-            want = ('f', f32(x) if dst == 'float' else x)
+            want = ('f', (eai.int_to_f32(v) if isinstance(v, int) else f32(v)) if dst == 'float' else float(v))
         if want is None:
             r.instance(True, key, where, 'out-of-range float->int conversion (undefined; not judged)')
             continue
@@ -357,6 +359,68 @@ def rule_logical(chk, prog, tier):
                 det = 'must fold to %d, got %s' % (want, got[:2])
             r.instance(ok, key, 'eval.c:%s' % fn.get('line'), det)
     r.exhaustive = True
+
+
+def rule_address_constants(chk, prog, tier):
+    r = chk.rule('C04.k', 'eval() folds an address constant plus/minus integer constants - in either operand order, also through the pointer-to-integer cast it accepts (6.6p10) - to the same address with the constants summed; '
+                 'no fold reads a union arm of a node after another arm of it was written, and what cannot be folded is left as it was', floor=8, oracle='C11 6.6p7, p9, p10')
+    fn = prog.require_func('eval')
+    M = models(prog)
+    # P: &obj   P1: &obj + 4   (T): cast to long
+    CASES = [('P1 + 8', 12), ('P1 - 8', -4), ('(long)P1 + 8', 12), ('8 + (long)P1', 12), ('(long)P + 8', 8), ('8 + (long)P', 8), ('(P1 + 8) + 16', 28), ('(P1 + 8) - 16', -4), ('16 + (long)(P1 + 8)', 28),
+             ('(long)(P1 - 8) + 16', 12), ('8 - (long)P1', 'unfolded'), ('P1', 4), ('(long)P1', 4)]
+    for text, want in CASES:
+        def runner(it):
+            w = World(prog, it=it, target='x86_64-sysv')
+            pt = w.mkptr(w.t('int'))
+            d = Obj('decl:obj', 'heap'); d.f.update({('kind',): ev(prog, 'DECLOBJECT'), ('type',): w.t('int'), ('qual',): 0, ('u', 'obj', 'storage'): ev(prog, 'SDSTATIC'), ('value',): cmodel.val('$obj')})
+            amp = w.mkexpr('EXPRUNARY', pt, w.mkexpr('EXPRIDENT', w.t('int'), None, u__ident__decl=Ptr(d, ())), op=ev(prog, 'TBAND'))
+            def P(): return amp
+            def binop(op, t, l, rr): return w.mkexpr('EXPRBINARY', t, None, op=ev(prog, op), u__binary__l=l, u__binary__r=rr)
+            def P1(): return binop('TADD', pt, P(), mkconst(w, w.t('ulong'), 4))
+            def L(e): return w.mkexpr('EXPRCAST', w.t('long'), e)
+            def K(v, t='long'): return mkconst(w, w.t(t), v)
+            tree = {'P1 + 8': lambda: binop('TADD', pt, P1(), K(8, 'ulong')), 'P1 - 8': lambda: binop('TSUB', pt, P1(), K(8, 'ulong')),
+                    '(long)P1 + 8': lambda: binop('TADD', w.t('long'), L(P1()), K(8)), '8 + (long)P1': lambda: binop('TADD', w.t('long'), K(8), L(P1())),
+                    '(long)P + 8': lambda: binop('TADD', w.t('long'), L(P()), K(8)), '8 + (long)P': lambda: binop('TADD', w.t('long'), K(8), L(P())),
+                    '(P1 + 8) + 16': lambda: binop('TADD', pt, binop('TADD', pt, P1(), K(8, 'ulong')), K(16, 'ulong')),
+                    '(P1 + 8) - 16': lambda: binop('TSUB', pt, binop('TADD', pt, P1(), K(8, 'ulong')), K(16, 'ulong')),
+                    '16 + (long)(P1 + 8)': lambda: binop('TADD', w.t('long'), K(16), L(binop('TADD', pt, P1(), K(8, 'ulong')))),
+                    '(long)(P1 - 8) + 16': lambda: binop('TADD', w.t('long'), L(binop('TSUB', pt, P1(), K(8, 'ulong'))), K(16)),
+                    '8 - (long)P1': lambda: binop('TSUB', w.t('long'), K(8), L(P1())), 'P1': P1, '(long)P1': lambda: L(P1())}[text]()
+            res = it.call(fn, [tree])
+            KIND = {ev(prog, k): k for k in ('EXPRCONST', 'EXPRBINARY', 'EXPRUNARY', 'EXPRCAST', 'EXPRIDENT')}
+            def flat(e, depth=0):
+                """-> (number of times the address occurs, sum of the constants) or a string saying what else was found"""
+                if not isinstance(e, Ptr) or depth > 6: return 'an indeterminate operand (%r)' % (e,)
+                k = KIND.get(it.load(e.obj, ('kind',)))
+                if k == 'EXPRCONST': return (0, it.load(e.obj, ('u', 'constant', 'u'), 'unsigned long long'))
+                if k == 'EXPRUNARY': return (1, 0) if e.obj is amp.obj else 'another unary node'
+                if k == 'EXPRBINARY':
+                    op = it.load(e.obj, ('op',))
+                    a = flat(it.load(e.obj, ('u', 'binary', 'l')), depth + 1); b = flat(it.load(e.obj, ('u', 'binary', 'r')), depth + 1)
+                    if isinstance(a, str): return a
+                    if isinstance(b, str): return b
+                    if op == ev(prog, 'TADD'): return (a[0] + b[0], a[1] + b[1])
+                    if op == ev(prog, 'TSUB'): return 'unfolded' if b[0] else (a[0], a[1] - b[1])
+                    return 'operator %s' % op
+                return 'node kind %s' % k
+            return flat(res)
+        runs = explore(prog, runner, M, max_runs=8, on_unsupported='keep')
+        key = 'address-constant:%s' % text
+        if len(runs) != 1:
+            raise AnalysisBroken('%s: %d runs' % (key, len(runs)))
+        run = runs[0]
+        if run.outcome != 'return':
+            r.violation(key, 'eval.c:%s' % fn.get('line'), 'folding &obj+4 written as `%s` (P = &obj, P1 = &obj + 4) ends in %s: %s' % (text, run.outcome, str(run.detail)[:200])); continue
+        got = run.value
+        if want == 'unfolded':
+            ok = got == 'unfolded'
+        else:
+            ok = isinstance(got, tuple) and got[0] == 1 and (got[1] - want) % 2 ** 64 == 0
+        r.instance(ok, key, 'eval.c:%s' % fn.get('line'), '`%s` with P = &obj, P1 = &obj + 4 must evaluate to %s; eval() yields %s' % (text, '&obj%+d' % want if want != 'unfolded' else 'itself (not a constant)', 
+                   '&obj x%d %+d' % (got[0], cwrap(got[1], 8, True)) if isinstance(got, tuple) else got))
+    r.exhaustive = False
 
 
 def rule_consumers(chk, prog, tier):
@@ -625,6 +689,7 @@ def run(chk, tier):
     chk.guard('C04.h', lambda: rule_const_text(chk, prog, tier))
     chk.guard('C04.i', lambda: rule_binary_values(chk, prog, tier))
     chk.guard('C04.j', lambda: rule_no_narrowing(chk, prog, tier))
+    chk.guard('C04.k', lambda: rule_address_constants(chk, prog, tier))
     from props import c05, c10
     chk.guard('C05.d', lambda: c05.rule_literals(chk, prog, tier))            # the type of an integer literal (by base, suffix, magnitude) decides how the expressions built from it fold
     chk.guard('C05.d2', lambda: c05.rule_literal_base(chk, prog, tier))       # ... and primaryexpr has to hand inttype the right base
